@@ -22,7 +22,7 @@ from edgegraph.output import nrpickler
 from edgegraph.structure import DirectedEdge, Link, UnDirectedEdge, Universe, Vertex
 from edgegraph.traversal import helpers
 
-from egverif import canon, graphs, histories, oracles, zoo
+from egverif import byvalue, canon, graphs, histories, oracles, stepmon, zoo
 
 RULE = (
     "cases = (object graph, root, pickle protocol 0-5, dumps|dump(file), loader pickle|dill, same|fresh interpreter, "
@@ -30,7 +30,10 @@ RULE = (
     "random structure histories (cycles, self-loops, parallel and half-assigned edges, n-ended links, nested "
     "universes, zoo subclasses), graph-spec families, run-time attributes of primitive and container types (tuples "
     "holding vertices, containers shared between objects, a tuple on a cycle through itself), chains of 1000-3000 "
-    "vertices (10000 in thorough) dumped under a recursion limit of current depth + 150.  Oracle: canonical form "
+    "vertices (10000 in thorough) dumped under a recursion limit of current depth + 150, subclasses with __slots__, "
+    "classes pickled BY VALUE (defined inside a function, or in the __main__ of a script that dumps for an interpreter "
+    "that never saw them) whose methods use super() / closures, with a logical-step monitor on the pickler's drain "
+    "loop (a class/function/cell started > 300 times without reaching the memo = dump never terminates).  Oracle: canonical form "
     "(first-visit numbering: class qualnames, uids, public attributes, ordered links/ends/members/universes/laws, "
     "sharing) of copy == original, no object shared with the original, a fixed query battery answers the same, and "
     "mutating the copy leaves the original's form unchanged.  Non-trivial = graph with >=1 link; distinct = distinct "
@@ -44,7 +47,9 @@ def floors(ctx):
     f = {"evaluations": 300 if q else 3000, "fresh_interpreter_cases": 30 if q else 300, "same_process_cases": 200,
          "deep_graph_cases": 2, "cases_with_warm_cache": 30, "cases_with_container_attrs": 50,
          "cases_with_nested_universes": 10, "copy_mutation_checks": 100,
-         "cases_with_big_attrs": 20}
+         "cases_with_big_attrs": 20, "cases_with_classes_pickled_by_value": 20 if q else 100,
+         "cases_with_by_value_class_using_super": 10 if q else 60, "cases_with_slotted_subclass": 20,
+         "cases_with_classes_defined_in_a_script_main": 10}
     for p in range(6):
         f[f"proto{p}"] = 10
     f["protodefault"] = 5
@@ -259,6 +264,47 @@ class FreshBatch:
         self.items = []
 
 
+def run_main_script(ctx, batch):
+    """Classes defined in a script's __main__: dumped there, loaded in an interpreter that never saw them."""
+    fd, path = tempfile.mkstemp(prefix="egv_c10_", suffix=".json")
+    os.close(fd)
+    script = os.path.join(os.path.dirname(os.path.dirname(os.path.abspath(__file__))), "main10.py")
+    try:
+        try:
+            r = subprocess.run([sys.executable, "-B", script, path], capture_output=True, text=True, timeout=600)
+        except subprocess.TimeoutExpired:
+            ctx.count("main_script_watchdog_fired")  # no verdict from a wall clock
+            return
+        if r.returncode != 0:
+            raise RuntimeError("main10 script failed: " + r.stderr[-800:])
+        with open(path) as fp:
+            out = json.load(fp)
+    finally:
+        os.unlink(path)
+    for k, rec in enumerate(out["cases"]):
+        desc = {"source": "main_script", "n": rec["n"], "proto": rec["proto"]}
+        cfg = {"proto": rec["proto"], "via": "dumps", "loader": "pickle" if k % 2 else "dill", "where": "fresh",
+               "cache_dump": False, "cache_load": bool(k % 3 == 0), "warm": False}
+        ctx.evaluated()
+        ctx.count("cases_with_classes_defined_in_a_script_main")
+        if not rec["monitored"]:
+            ctx.count("step_monitor_not_installable")
+        if "error" in rec:
+            if rec["error"] == "Diverged":
+                ctx.violation("dump_never_terminates:class_pickled_by_value",
+                              f"nrpickler.dumps (protocol {rec['proto']}) of a graph over classes defined in the dumping "
+                              f"script's __main__ keeps re-expanding one class/function/cell that never reaches the memo",
+                              {"cfg": cfg, "desc": desc})
+            else:
+                ctx.violation(f"dump_raised:{rec['error']}:class_pickled_by_value",
+                              f"nrpickler.dumps raised {rec['error']} (protocol {rec['proto']}) on a graph over classes defined "
+                              f"in the dumping script's __main__", {"cfg": cfg, "desc": desc})
+            continue
+        ctx.count(f"{cfg['loader']}:fresh:{'cache_on' if cfg['cache_load'] else 'cache_off'}")
+        batch.add(base64.b64decode(rec["pickle_b64"]), cfg, desc, rec["form"], rec["battery"])
+    batch.flush(ctx)
+
+
 def run_case(ctx, rng, cfg, desc, root, objs_all, batch):
     """cfg: proto, via, loader, where, cache_dump, cache_load, warm, low_recursion"""
     case = {"cfg": cfg, "desc": desc}
@@ -275,6 +321,13 @@ def run_case(ctx, rng, cfg, desc, root, objs_all, batch):
     finally:
         Vertex.NEIGHBOR_CACHING = False
     ctx.evaluated()
+    if any("slots" in n for n in form0["nodes"]):
+        if res[0] != "ok" and res[1] is TypeError and cfg["proto"] in (0, 1) \
+                and oracles.outcome(pickle.dumps, zoo.VSlots(), cfg["proto"])[0] == "exc":
+            # Python itself refuses protocols 0/1 for a class with non-empty __slots__ and no __getstate__
+            ctx.count("slotted_class_under_protocol_0_1_refused_by_python_itself")
+            return
+        ctx.count("cases_with_slotted_subclass")
     ctx.count(f"proto{cfg['proto'] if cfg['proto'] is not None else 'default'}")
     ctx.count("via_" + cfg["via"])
     ctx.count(f"{cfg['loader']}:{cfg['where']}:{'cache_on' if cfg['cache_load'] else 'cache_off'}")
@@ -286,6 +339,13 @@ def run_case(ctx, rng, cfg, desc, root, objs_all, batch):
             sub += ":shared_immutable_container_on_cycle"
         if desc["source"] == "shared_callable":
             sub += ":shared_callable_referring_into_graph"
+        if desc["source"] in ("byvalue", "main_script"):
+            sub += ":class_pickled_by_value"
+        if res[1] is stepmon.Diverged:
+            ctx.violation("dump_never_terminates" + sub,
+                          f"nrpickler.{cfg['via']} (protocol {cfg['proto']}) keeps re-expanding one class/function/cell that "
+                          f"never reaches the memo (> {stepmon.LIMIT} by-value starts of the same object) on {desc}", case)
+            return
         ctx.violation(f"dump_raised:{res[1].__name__}{sub}",
                       f"nrpickler.{cfg['via']} raised {res[1].__name__} (protocol {cfg['proto']}) on {desc}", case)
         return
@@ -353,6 +413,8 @@ def build_from_desc(desc):
         if desc.get("linked"):
             DirectedEdge(leaf, hub, attributes={"tag": 0})
         objs = [leaf, leaf2, hub]
+    elif desc["source"] == "byvalue":
+        objs = byvalue.build(desc["variant"])
     elif desc["source"] == "tuple_cycle":
         # a tuple shared by two objects, on a cycle through the tuple itself
         u, v = Vertex(attributes={"idx": 0}), Vertex(attributes={"idx": 1})
@@ -379,6 +441,12 @@ def run(ctx):
     fixed += [{"source": "shared_callable", "kind": k_, "linked": l, "attrs": "none"} for k_ in ("method", "partial", "tuple_of_method")
               for l in (False, True)]
     fixed += [{"source": "chain", "n": n, "closed": c, "attrs": "none"} for n in (5, 50) for c in (False, True)]
+    if stepmon.install():
+        fixed += [{"source": "byvalue", "variant": v_, "attrs": a_} for v_, a_ in (
+            ("plain", "none"), ("super", "none"), ("child+edges", "prims"), ("mixed+edges+uni", "containers"),
+            ("mixed+closure", "none"), ("super+uni+closure", "shared"))]
+    else:
+        ctx.count("step_monitor_not_installable")
     fixed += [{"source": "dense", "n": 12, "p": 0.5, "attrs": "containers", "dseed": 3}]
     k = 0
     for desc in fixed:
@@ -393,12 +461,18 @@ def run(ctx):
                     objs = build_from_desc(desc)
                     if desc["source"] == "nested":
                         ctx.count("cases_with_nested_universes")
+                    if desc["source"] == "byvalue":
+                        ctx.count("cases_with_classes_pickled_by_value")
+                        if "super" in desc["variant"] or "child" in desc["variant"] or "mixed" in desc["variant"]:
+                            ctx.count("cases_with_by_value_class_using_super")
                     if desc["attrs"] != "none":
                         ctx.count("cases_with_container_attrs")
                     if desc["attrs"] == "big":
                         ctx.count("cases_with_big_attrs")
                     root = pick_root(rng, objs, ["vertex", "universe", "link", "list", "dict", "everything"][k % 6])
                     run_case(ctx, rng, cfg, dict(desc, root=k % 6), root, objs, batch)
+    if ctx.shard == 0:
+        run_main_script(ctx, batch)
     # deep graphs under a low recursion limit
     deep = [1000, 3000] if quick else [1000, 3000, 6000, 10000]
     for i, n in enumerate(deep):
@@ -437,6 +511,9 @@ def run(ctx):
         if len(batch.items) >= 60:
             batch.flush(ctx)
     batch.flush(ctx)
+    ctx.count("by_value_save_starts_observed", stepmon.STATS["starts_observed"])
+    ctx.counters["max_by_value_starts_of_one_object"] = max(ctx.counters.get("max_by_value_starts_of_one_object", 0),
+                                                            stepmon.STATS["max_starts_of_one_object"])
     ctx.assumptions += [
         "attribute containers are compared by value; sharing is compared for graph objects (vertices, links, universes, laws)",
         "CPython 3.12 + dill 0.4.1; 'regardless of size' explored up to 3000 (10000 thorough) vertices under a recursion "
